@@ -347,6 +347,10 @@ class Interp:
         loc = {}
         args = list(args)
         kwargs = dict(kwargs)
+        renamed = getattr(info.node, '_pv_renamed_params', None)
+        if renamed:
+            # the function is interpreted with the parameter names of the pinned tree (frontend: renamed locals)
+            kwargs = {renamed.get(k, k): v for k, v in kwargs.items()}
         n = len(params)
         if len(args) > n and not a.vararg:
             raise PyRaise(TypeError('%s() takes %d positional arguments but %d were given'
